@@ -119,6 +119,44 @@ func doubleUseMutants(s *chain.Sim, p chain.BlockPlan, rng *rand.Rand) []mutant 
 		s.Seal(&mb2, p.Miner)
 		out = append(out, mutant{kind + ":same-txn-twice", mb2, ms2})
 	}
+	// --- a contract revised earlier in the block, then resolved, then resolved AGAIN (and revised again) by later
+	// transactions: whatever is remembered about the parent from the in-block revision must not let the second use through
+	for ti, t := range b.V2Transactions() {
+		if len(t.FileContractResolutions) != 1 || len(t.FileContractRevisions) != 0 {
+			continue
+		}
+		res := t.FileContractResolutions[0]
+		if _, isRenewal := res.Resolution.(*types.V2FileContractRenewal); !isRenewal {
+			continue // only a renewal can follow a revision in one block (height rules)
+		}
+		rev := res.Parent.V2FileContract
+		rev.RevisionNumber++
+		s.SignContract(&rev, rev.RenterPublicKey, rev.HostPublicKey)
+		revTxn := types.V2Transaction{FileContractRevisions: []types.V2FileContractRevision{{Parent: res.Parent.Copy(), Revision: rev}}}
+		// control: [revision, renewal] alone must be a valid block, otherwise the construction proves nothing
+		ctl := chain.DeepCopyBlock(b)
+		ctl.V2.Transactions = append(append(append([]types.V2Transaction{}, ctl.V2.Transactions[:ti]...), revTxn), ctl.V2.Transactions[ti:]...)
+		s.Seal(&ctl, p.Miner)
+		if consensus.ValidateBlock(s.Tip, ctl, chain.CopySupp(p.Supp)) != nil {
+			continue
+		}
+		again := cloneV2(t)
+		again.ArbitraryData = append(again.ArbitraryData, []byte(fmt.Sprintf("second use %d", ti))...)
+		if !s.ResignV2(&again) {
+			continue
+		}
+		mb := chain.DeepCopyBlock(ctl)
+		mb.V2.Transactions = append(mb.V2.Transactions, again)
+		s.Seal(&mb, p.Miner)
+		out = append(out, mutant{"v2-resolution:after-inblock-revision:resolved-twice", mb, chain.CopySupp(p.Supp)})
+		rev2 := rev
+		rev2.RevisionNumber++
+		s.SignContract(&rev2, rev2.RenterPublicKey, rev2.HostPublicKey)
+		mb2 := chain.DeepCopyBlock(ctl)
+		mb2.V2.Transactions = append(mb2.V2.Transactions, types.V2Transaction{FileContractRevisions: []types.V2FileContractRevision{{Parent: res.Parent.Copy(), Revision: rev2}}})
+		s.Seal(&mb2, p.Miner)
+		out = append(out, mutant{"v2-resolution:after-inblock-revision:revised-after-resolution", mb2, chain.CopySupp(p.Supp)})
+	}
 	// --- the same transaction lists an element twice
 	for i, t := range b.Transactions {
 		if len(t.SiacoinInputs) > 0 && len(t.StorageProofs) == 0 {
